@@ -121,6 +121,7 @@ def run_shard(pid, tier, seed, shard, nshards, workload, replay=None):
         reached=reach.counts(),
         driver_error=err,
         hashes=sorted(sess.case_hashes),
+        case_errors=sess.case_errors,
     )
     return res
 
@@ -131,7 +132,18 @@ def _exec_case(ctx, mod, case):
     sess = ctx.sess
     sess.current_case = _LazyCase(case)
     sess.current_case_info = None
-    nontrivial = mod.execute(ctx, case)
+    try:
+        nontrivial = mod.execute(ctx, case)
+    except Exception as e:
+        # The library (or the driver) raised in the middle of a case. Monitors with an on_exc handler have already
+        # judged it if it is a property violation; otherwise the run is inconclusive. Either way, keep going.
+        import traceback
+
+        sess.notes["cases_aborted_by_exception"] += 1
+        if len(sess.case_errors) < 5:
+            sess.case_errors.append(f"{type(e).__name__}: {e} | " + " <- ".join(
+                f"{fs.name}:{fs.lineno}" for fs in traceback.extract_tb(e.__traceback__)[-4:]))
+        nontrivial = False
     if nontrivial is None:
         nontrivial = True
     sample = None
@@ -269,6 +281,8 @@ def _merge(results):
         oracle_errors.extend(r["oracle_errors"])
         if r.get("driver_error"):
             driver_errors.append(f"[{r['workload']}#{r['shard']}] {r['driver_error']}")
+        for ce in r.get("case_errors", []):
+            driver_errors.append(f"[{r['workload']}#{r['shard']}] case aborted: {ce}")
         for s in r["samples"]:
             if len(samples) < 6:
                 samples.append(s)
